@@ -421,7 +421,9 @@ class Representation(ObjectWithFields):
             origin_time = 0
             mod_segment = 1
             drift = 0
-            end = ref_duration_tc
+            # never wrap around to the first segment again when this track
+            # is shorter than the timing reference
+            end = min(ref_duration_tc, self.mediaDuration)
         rv = []
         dur = 0
         s_node = SegmentTimelineElement(mod_segment=mod_segment)
